@@ -57,6 +57,18 @@ CLAIMED = {
                 "differential stand-in (400 renderings) covers them and is not counted. One known finding (sequence field leaks into inline docs).",
         "note": "Partial: classification only is proved.",
     },
+    "C01": {
+        "engines": ["A", "B", "Bd"],
+        "technique": "contract-based deductive verification: contracts on the regex constants of the statement-dispatch cascade (coverage of every spelling, "
+                     "first-match against every earlier branch, case closure, exclusion of executable statements) decided by z3's regex solver on "
+                     "CPython's parse of the live patterns; loop-invariant VCs for paren_split / get_parens; call-site preconditions of re.sub",
+        "text": "Parser mechanisms of C01 proved for all strings: for 23 statement kinds every spelling of the supported subset (END forms, kind spellings, "
+                "attribute statements, optional '::', prefixes, result/bind clauses) is accepted and fully consumed by its pattern and by no branch tested "
+                "earlier; dispatch is case-independent; assignments, calls, control constructs and I/O statements never match a declaration pattern; "
+                "paren_split and get_parens equal their depth-based specification. The tree-building code (constructor recursion, _cleanup, "
+                "process_attribs, line_to_variables) is not proved: a bounded differential run over 96 equivalent spellings stands in (not counted).",
+        "note": "Partial: parser correctness as a whole is not provable here; the statement-kind oracle is an under-approximation of the subset.",
+    },
 }
 _NB = "no obligations built yet for this property in the current commit (planned in DESIGN.md section 6; technique not switched)"
-NOT_APPLICABLE = {p: _NB for p in ["C01", "C03", "C04", "C08", "C09", "C11", "C12", "C13", "C15", "C16", "C17", "C18", "C19", "C20"]}
+NOT_APPLICABLE = {p: _NB for p in ["C03", "C04", "C08", "C09", "C11", "C12", "C13", "C15", "C16", "C17", "C18", "C19", "C20"]}
